@@ -57,6 +57,7 @@ def expand_minimal_spaces(
                 assert sd.node_is_minimal(m_id)
                 skip_edges += 1
 
+        sd._reset_attractor_data(node_id)  # type: ignore
         node["expanded"] = True
         node["skipped"] = True
 
